@@ -14,7 +14,19 @@ impl<'a> CharacterString<'a> {
 }
 """)
     for fn in list_fns(c, rel, CS_IMPL):
-        c.mark(rel, CS_IMPL, fn, '#[verifier::external]')
+        if fn not in ('new', 'internal_new'):
+            c.mark(rel, CS_IMPL, fn, '#[verifier::external]')
+    # construction: at most 255 bytes or an error, never truncation
+    c.contract(rel, CS_IMPL, 'new', """
+        ensures
+            (r is Ok) == (data@.len() <= 255), // @C10:over-long-string-refused
+            r is Ok ==> r.unwrap().bytes() == data@ && r.unwrap().wf_ok(), // @C10:string-kept-as-given,C02:constructed-values-are-ok
+""")
+    c.contract(rel, CS_IMPL, 'internal_new', """
+        ensures
+            (r is Ok) == (data@.len() <= 255), // @C10:over-long-string-refused
+            r is Ok ==> r.unwrap().bytes() == data@ && r.unwrap().wf_ok(), // @C10:string-kept-as-given,C02:constructed-values-are-ok
+""", pre_body="\n        broadcast use crate::vx::vx_axioms;\n")
     c.wrap(rel, CS_IMPL)
     c.sub(rel, CS_WF, CS_WF + """
     open spec fn wf_ok(&self) -> bool { self.bytes().len() <= 255 }
@@ -26,6 +38,8 @@ impl<'a> CharacterString<'a> {
     open spec fn wf_canon(&self) -> bool { true }
     open spec fn wf_in_rdata() -> bool { true }
     open spec fn wf_nocomp() -> bool { false }
+    open spec fn wf_eqv(&self, other: &Self) -> bool { self.bytes() == other.bytes() }
+    proof fn lemma_det(data: Seq<u8>, p: int, v1: &Self, e1: int, v2: &Self, e2: int) {}
     proof fn lemma_rt(&self, pre: Seq<u8>) {
         let d = pre + self.wf_enc();
         assert(d[pre.len() as int] == self.bytes().len() as u8);
@@ -46,3 +60,18 @@ impl<'a> CharacterString<'a> {
         }
 """, where='before')
     c.wrap(rel, CS_WF)
+    # TryFrom<&str>: same rule as `new` on the UTF-8 bytes
+    TF = "impl<'a> TryFrom<&'a str> for CharacterString<'a> {"
+    c.contract(rel, TF, 'try_from', """
+        ensures
+            (r is Ok) == (vstd::string::StringSliceAdditionalSpecFns::spec_bytes(value).len() <= 255), // @C10:over-long-string-refused
+            r is Ok ==> r.unwrap().bytes() == vstd::string::StringSliceAdditionalSpecFns::spec_bytes(value) && r.unwrap().wf_ok(), // @C10:string-kept-as-given
+""")
+    c.wrap(rel, TF)
+    c.append(rel, """verus!{
+impl<'a> vstd::std_specs::convert::TryFromSpecImpl<&'a str> for CharacterString<'a> {
+    open spec fn obeys_try_from_spec() -> bool { false }
+    open spec fn try_from_spec(v: &'a str) -> Result<Self, crate::SimpleDnsError> { arbitrary() }
+}
+}
+""")
